@@ -91,6 +91,7 @@ func main() {
 	stakingExecutorFacts(byPath[mod+"x/cpc/keeper"])
 	cryptoFacts(byPath[mod+"crypto/ethsecp256k1"], byPath[mod+"ethereum/eip712"], byPath[mod+"x/cpc/eip712"])
 	indexerFacts(byPath[mod+"indexer"], byPath[mod+"server"])
+	eventSysFacts(byPath[mod+"rpc/namespaces/ethereum/eth/filters"])
 
 	// the pinned fork (module cache)
 	forkDir := forkDirOf(repo)
@@ -1307,4 +1308,105 @@ func exprFull(e ast.Expr) string {
 		return "*" + exprFull(t.X)
 	}
 	return exprString(e)
+}
+
+// ---------------------------------------------------------------------------------------------
+// event system (C20): the order of lock operations, channel sends and closes in the goroutines of
+// rpc/namespaces/ethereum/eth/filters/filter_system.go.
+
+func syncTokens(n ast.Node) []string {
+	var out []string
+	var walk func(n ast.Node, under string)
+	walk = func(n ast.Node, under string) {
+		ast.Inspect(n, func(x ast.Node) bool {
+			switch t := x.(type) {
+			case *ast.IfStmt:
+				if t.Init != nil {
+					walk(t.Init, under)
+				}
+				walk(t.Cond, under)
+				walk(t.Body, under+"@if("+exprFull(t.Cond)+")")
+				if t.Else != nil {
+					walk(t.Else, under+"@else")
+				}
+				return false
+			case *ast.SendStmt:
+				out = append(out, "send "+exprFull(t.Chan)+under)
+			case *ast.AssignStmt:
+				if len(t.Lhs) == 1 {
+					if ix, ok := t.Lhs[0].(*ast.IndexExpr); ok && strings.HasPrefix(exprFull(ix.X), "es.index") {
+						out = append(out, "index-assign"+under)
+					}
+					if ix, ok := t.Lhs[0].(*ast.IndexExpr); ok && exprFull(ix.X) == "es.topicChans" {
+						out = append(out, "topicChans-assign"+under)
+					}
+				}
+			case *ast.CallExpr:
+				f := exprFull(t.Fun)
+				switch {
+				case strings.HasPrefix(f, "es.indexMux."):
+					out = append(out, strings.TrimPrefix(f, "es.indexMux.")+under)
+				case f == "close":
+					out = append(out, "close "+exprFull(t.Args[0])+under)
+				case f == "delete":
+					out = append(out, "delete "+exprFull(t.Args[0])+under)
+				case strings.HasPrefix(f, "es.eventBus."):
+					out = append(out, strings.TrimPrefix(f, "es.eventBus.")+under)
+				}
+			}
+			return true
+		})
+	}
+	walk(n, "")
+	return out
+}
+
+func eventSysFacts(p *packages.Package) {
+	if p == nil {
+		fail("filters package not loaded")
+		return
+	}
+	if fd := findMethod(p, "EventSystem", "consumeEvents"); fd != nil {
+		facts["eventSysConsume"] = syncTokens(fd.Body)
+	} else {
+		fail("consumeEvents not found")
+	}
+	if fd := findMethod(p, "EventSystem", "eventLoop"); fd != nil {
+		ast.Inspect(fd.Body, func(n ast.Node) bool {
+			cc, ok := n.(*ast.CommClause)
+			if !ok || cc.Comm == nil {
+				return true
+			}
+			name := ""
+			if as, ok := cc.Comm.(*ast.AssignStmt); ok && len(as.Rhs) == 1 {
+				name = exprFull(as.Rhs[0])
+			}
+			var toks []string
+			for _, st := range cc.Body {
+				toks = append(toks, syncTokens(st)...)
+			}
+			switch name {
+			case "<-es.install":
+				facts["eventSysInstall"] = toks
+			case "<-es.uninstall":
+				facts["eventSysUninstall"] = toks
+			}
+			return true
+		})
+	} else {
+		fail("eventLoop not found")
+	}
+	if fd := findMethod(p, "EventSystem", "subscribe"); fd != nil {
+		var toks []string
+		ast.Inspect(fd.Body, func(n ast.Node) bool {
+			if is, ok := n.(*ast.IfStmt); ok && exprFull(is.Cond) == "topic==sub.event" {
+				toks = syncTokens(is.Body)
+				return false
+			}
+			return true
+		})
+		facts["eventSysJoin"] = toks
+	} else {
+		fail("subscribe not found")
+	}
 }
